@@ -254,6 +254,16 @@ Proof.
   simpl. rewrite E1. f_equal. now apply IH.
 Qed.
 
+(** reading the same thing n times (e.g. a static input pulled n times) gives n copies of the
+    pure answer *)
+Lemma repeated_reads : forall Un o n c, faithful Un -> sound Un c -> incl (op_ents o) Un ->
+  run c (repeat o n) = repeat (pure_res o) n.
+Proof.
+  intros Un o n c HF HS HI. rewrite (memo_pure Un); auto.
+  - induction n as [|n IH]; simpl; [reflexivity|now rewrite IH].
+  - unfold ops_ents. induction n as [|n IH]; simpl; [intros e []|]. apply incl_app; assumption.
+Qed.
+
 Lemma final_sound : forall Un ops c, faithful Un -> sound Un c -> incl (ops_ents ops) Un ->
   sound Un (final c ops).
 Proof.
